@@ -612,6 +612,7 @@ def run_case(root, wdir, case, info, so):
         with open(os.path.join(wdir, "bases", name + ".pre.pkl"), "rb") as f:
             pre = pickle.load(f)
         argv = [b.tool("resize2fs")] + case["flags"] + [D] + ([case["size"]] if case["size"] else [])
+        cmd = "resize2fs " + " ".join(case["flags"] + ["IMG(%s)" % name] + ([case["size"]] if case["size"] else []))
         e = env
         pre_copy = trace = None
         if case["traced"]:
@@ -631,7 +632,7 @@ def run_case(root, wdir, case, info, so):
             if not r.timed_out:
                 break
         if r.timed_out:
-            res["inconclusive"] = "resize2fs timed out twice: %s" % " ".join(argv[1:])
+            res["inconclusive"] = "resize2fs timed out twice: %s" % cmd
             return res
         out = r.text + r.etext
         res["rc"], res["sig"] = r.rc, r.sig
@@ -651,7 +652,7 @@ def run_case(root, wdir, case, info, so):
             why = []
             if not iotrace.selfcheck(pre_copy, recs, D, why=why):
                 res["harness"] = "iotrace self-check failed (trace incomplete): %s; %s" % (
-                    why, " ".join(argv[1:]))
+                    why, cmd)
                 return res
             res["trace"] = {"records": len(recs)}
 
@@ -676,7 +677,7 @@ def run_case(root, wdir, case, info, so):
                     except Exception as ex:
                         extra = "unreadable now (%s); " % ex
                     viol("C08 refused-but-modified", "%s exit %s without announcing the resize but the "
-                         "filesystem bytes changed; %s%s" % (" ".join(argv[1:]), r.rc, extra, res["msg"]))
+                         "filesystem bytes changed; %s%s" % (cmd, r.rc, extra, res["msg"]))
                     keep = True
                 return res
             res["outcome"] = "aborted"
@@ -688,7 +689,7 @@ def run_case(root, wdir, case, info, so):
                 if not st & EXT2_ERROR_FS:
                     viol("C08 %s aborted-without-error-flag" % op, "%s failed (exit %s) after modifying the "
                          "filesystem and s_state=%#x lacks EXT2_ERROR_FS; %s" % (
-                             " ".join(argv[1:]), r.rc, st, res["msg"]))
+                             cmd, r.rc, st, res["msg"]))
                     keep = True
             return res
 
@@ -700,24 +701,24 @@ def run_case(root, wdir, case, info, so):
             return res
         if rf.rc != 0:
             viol("C08 %s e2fsck-fn %s" % (op, first_problem(rf.text + rf.etext, D)),
-                 "%s exit 0, then e2fsck -fn exit %s: %s" % (" ".join(argv[1:]), rf.rc,
+                 "%s exit 0, then e2fsck -fn exit %s: %s" % (cmd, rf.rc,
                                                            (rf.text + rf.etext).replace(D, "IMG")[-500:]))
             keep = True
         pyk, pyd = fsckpair.pycheck(D)
         if "ORACLE-CRASH" in pyk:
-            res["harness"] = "pyext4 crashed on the result of %s: %s" % (" ".join(argv[1:]), pyd)
+            res["harness"] = "pyext4 crashed on the result of %s: %s" % (cmd, pyd)
             keep = True
             return res
         if pyk:
             viol("C08 %s pyext4 %s" % (op, ",".join(pyk[:3])),
                  "%s exit 0 (e2fsck -fn exit %s) but the independent checker finds %s" % (
-                     " ".join(argv[1:]), rf.rc, pyd))
+                     cmd, rf.rc, pyd))
             keep = True
         try:
             geo2, bk2, dig2, ph2 = observe(D)
         except Exception as ex:
             viol("C08 %s tree-differs unreadable" % op, "independent reader fails on the result of %s: %r"
-                 % (" ".join(argv[1:]), ex))
+                 % (cmd, ex))
             keep = True
             return res
         res["post"] = {"blocks": geo2["blocks"], "groups": geo2["groups"]}
@@ -735,23 +736,23 @@ def run_case(root, wdir, case, info, so):
             elif rb is not None and op == "min" and not (rep_n <= rb and rb - rep_n < info["bpg"] + info["ratio"]):
                 bad = "requested %d blocks, reported %d" % (rb, rep_n)
             if bad:
-                viol("C08 %s size-mismatch" % op, "%s: %s" % (" ".join(argv[1:]), bad))
+                viol("C08 %s size-mismatch" % op, "%s: %s" % (cmd, bad))
                 keep = True
             res["exact_request"] = rb is not None and rep_n == rb
         else:
             if geo2["blocks"] != cur:
                 viol("C08 %s size-mismatch" % op, "%s reported nothing to do but the size went %d -> %d" % (
-                    " ".join(argv[1:]), cur, geo2["blocks"]))
+                    cmd, cur, geo2["blocks"]))
                 keep = True
         if os.path.getsize(D) < geo2["blocks"] * bs:
             viol("C08 %s image-file-shorter-than-filesystem" % op, "%s: file %d bytes < %d blocks of %d" % (
-                " ".join(argv[1:]), os.path.getsize(D), geo2["blocks"], bs))
+                cmd, os.path.getsize(D), geo2["blocks"], bs))
             keep = True
         # tree
         if dig2 != pre["digest"]:
             attrs = digest_diff(pre["digest"], dig2)
             viol("C08 %s tree-differs %s" % (op, attrs[0] if attrs else "?"),
-                 "%s: attributes %s; %s" % (" ".join(argv[1:]), attrs,
+                 "%s: attributes %s; %s" % (cmd, attrs,
                                             T.diff_digests(pre["digest"], dig2)[:4]))
             keep = True
         # what the run did (for evidence / non-triviality), from the independent reader
@@ -779,7 +780,7 @@ def run_case(root, wdir, case, info, so):
                 viol("C08 flag-missing-at-prefix %s" % v["phase"],
                      "%s: after trace record %d block %d differs from the pre-image while the on-disk "
                      "primary superblock has s_state=%#x (no EXT2_ERROR_FS); final superblock rewrite "
-                     "starts at record %d\n%s" % (" ".join(argv[1:]), v["record"], v["block"], v["s_state"],
+                     "starts at record %d\n%s" % (cmd, v["record"], v["block"], v["s_state"],
                                                   fcr["final_sb_rewrite_at"], excerpt(recs, v["record"])))
                 res["files"]["trace-excerpt.txt"] = excerpt(recs, v["record"], 30).encode()
                 keep = True
@@ -788,7 +789,7 @@ def run_case(root, wdir, case, info, so):
                 res["viol"].append((
                     "C08 flag-not-durable-before-first-modification " + fc,
                     "%s: %s (flag write at record %s, first real modification at record %s, block %s)\n%s"
-                    % (" ".join(argv[1:]), fcr["strong"], fcr["first_flag"], at,
+                    % (cmd, fcr["strong"], fcr["first_flag"], at,
                        fcr.get("first_mod_block"), excerpt(recs, at)))
                 )
                 res["files"]["trace-excerpt.txt"] = excerpt(recs, at, 30).encode()
